@@ -206,8 +206,12 @@ Blocked(t, run) ==
 (* acc = [m, at, run, cl, bad, redo]                                        *)
 
 StartOK(m, at, t) ==        \* C02, evaluated at the instant run() is called
-  /\ m.st[t] \in {"Do", "Doing"}     => \A w \in waits[t] : m.st[w] = "Done"
-  /\ m.st[t] \in {"Undo", "Undoing"} => \A h \in Halts(t) : IsReadyS(m.st[h])
+  \* prerequisites are checked where a handler is started for the first time (Do->Doing, Undo->Undoing);
+  \* a re-run of a task persisted as Doing/Undoing after a restart had them satisfied when it first started
+  \* (TLC on MCSpecAnyOrder shows the stronger reading fails: a task without undo handler that went
+  \* Abort->Undo->Done is flipped to Undo again by a user abort while its prerequisite is already Undoing)
+  /\ m.st[t] = "Do"   => \A w \in waits[t] : m.st[w] = "Done"
+  /\ m.st[t] = "Undo" => \A h \in Halts(t) : IsReadyS(m.st[h])
   /\ at[t] = 0 \/ at[t] <= now
 
 ConsiderTask(acc, t) ==
